@@ -524,14 +524,51 @@ Qed.
 Definition top_only (st st' : vstate) : Prop :=
   exists top rest top', vs_stack st = top :: rest /\ vs_stack st' = top' :: rest /\ hdr_eq top top'.
 
+Definition cls_with_attrs (c : cls) (ats : list attr) : cls :=
+  mkcls (c_id c) (c_name c) (c_supers c) (c_public c) (c_doc c) (c_ctor c) (c_ctor_fulldoc c) (c_exc c) (c_reexported_by c)
+        ats (c_methods c) (c_classes c) (c_tparams c).
+Definition enum_with (e : enum_) (ins : list (str * str)) : enum_ :=
+  {| e_id := e_id e; e_name := e_name e; e_doc := e_doc e; e_instances := ins |}.
+(* the only thing an assignment statement changes: the attribute list of a class, the instance list of an enum *)
+Definition attrs_only (a b : frame) : Prop :=
+  match a with
+  | FClass c => exists ats, b = FClass (cls_with_attrs c ats)
+  | FEnum e => exists ins, b = FEnum (enum_with e ins)
+  | _ => b = a
+  end.
+Lemma attrs_only_refl a : attrs_only a a.
+Proof. destruct a as [m|c|f|e|i]; cbn; auto; [exists (c_attrs c); destruct c; reflexivity|exists (e_instances e); destruct e; reflexivity]. Qed.
+Lemma attrs_only_trans a b c : attrs_only a b -> attrs_only b c -> attrs_only a c.
+Proof.
+  destruct a as [m|k|f|e|i]; cbn; intros H1 H2.
+  - subst b. exact H2.
+  - destruct H1 as [x H1]. subst b. cbn in H2. destruct H2 as [y H2]. subst c. exists y. reflexivity.
+  - subst b. exact H2.
+  - destruct H1 as [x H1]. subst b. cbn in H2. destruct H2 as [y H2]. subst c. exists y. reflexivity.
+  - subst b. exact H2.
+Qed.
+Lemma attrs_only_hdr a b : attrs_only a b -> hdr_eq a b.
+Proof.
+  destruct a as [m|k|f|e|i]; cbn [attrs_only]; intro H.
+  - subst b. apply hdr_refl.
+  - destruct H as [x H]. subst b. cbn. auto.
+  - subst b. apply hdr_refl.
+  - destruct H as [x H]. subst b. cbn. auto.
+  - subst b. apply hdr_refl.
+Qed.
+Lemma add_attr_only c a : attrs_only (FClass c) (FClass (cls_add_attr c a)).
+Proof. cbn. exists (c_attrs c ++ [a]). reflexivity. Qed.
+Lemma add_inst_only e i n : attrs_only (FEnum e) (FEnum (enum_add_instance e i n)).
+Proof. cbn. exists (e_instances e ++ [(i, n)]). reflexivity. Qed.
+
 Section Exact.
   Variables (al : aliases) (d : docs) (pref_doc warn : bool).
 
   Lemma assign_step_shape items : forall stack attrs insts out,
     fold_left assign_step items (Ok (stack, attrs, insts)) = Ok out ->
     fst (fst out) = stack \/
-    (exists a a' r, stack = a :: r /\ fst (fst out) = a' :: r /\ hdr_eq a a' /\ (forall f, a <> FFunc f)) \/
-    (exists f b b' r, stack = FFunc f :: b :: r /\ fst (fst out) = FFunc f :: b' :: r /\ hdr_eq b b').
+    (exists a a' r, stack = a :: r /\ fst (fst out) = a' :: r /\ attrs_only a a' /\ (forall f, a <> FFunc f)) \/
+    (exists f b b' r, stack = FFunc f :: b :: r /\ fst (fst out) = FFunc f :: b' :: r /\ attrs_only b b').
   Proof.
     induction items as [|it r IH]; intros stack attrs insts out H; cbn [fold_left] in H.
     - inversion H; subst. left. reflexivity.
@@ -540,22 +577,22 @@ Section Exact.
       destruct it as [a|id n]; destruct stack as [|[m|c|f|e|i] r2]; inv_ok; try exact H.
       + (* attribute on a class *)
         right. left. destruct H as [H|[H|H]].
-        * exists (FClass c), (FClass (cls_add_attr c a)), r2. rewrite H. split; [reflexivity|]. split; [reflexivity|]. split; [destruct c; cbn; auto|discriminate].
+        * exists (FClass c), (FClass (cls_add_attr c a)), r2. rewrite H. split; [reflexivity|]. split; [reflexivity|]. split; [apply add_attr_only|discriminate].
         * destruct H as [x [x' [r' [E1 [E2 [E3 E4]]]]]]. inversion E1; subst. exists (FClass c), x', r'.
           split; [reflexivity|]. split; [exact E2|]. split; [|discriminate].
-          eapply hdr_trans; [|exact E3]. destruct c; cbn; auto.
+          eapply attrs_only_trans; [|exact E3]. apply add_attr_only.
         * destruct H as [f [b [b' [r' [E1 _]]]]]. discriminate E1.
       + (* attribute in __init__: the class below the function *)
         destruct r2 as [|[m|c|f'|e|i] r3]; inv_ok. right. right. destruct H as [H|[H|H]].
-        * exists f, (FClass c), (FClass (cls_add_attr c a)), r3. rewrite H. split; [reflexivity|]. split; [reflexivity|]. destruct c; cbn; auto.
+        * exists f, (FClass c), (FClass (cls_add_attr c a)), r3. rewrite H. split; [reflexivity|]. split; [reflexivity|]. apply add_attr_only.
         * destruct H as [x [x' [r' [E1 [E2 [E3 E4]]]]]]. inversion E1; subst. exfalso. eapply E4. reflexivity.
         * destruct H as [f0 [b [b' [r' [E1 [E2 E3]]]]]]. inversion E1; subst. exists f0, (FClass c), b', r'.
-          split; [reflexivity|]. split; [exact E2|]. eapply hdr_trans; [|exact E3]. destruct c; cbn; auto.
+          split; [reflexivity|]. split; [exact E2|]. eapply attrs_only_trans; [|exact E3]. apply add_attr_only.
       + (* enum instance *)
         right. left. destruct H as [H|[H|H]].
-        * exists (FEnum e), (FEnum (enum_add_instance e id n)), r2. rewrite H. split; [reflexivity|]. split; [reflexivity|]. split; [cbn; auto|discriminate].
+        * exists (FEnum e), (FEnum (enum_add_instance e id n)), r2. rewrite H. split; [reflexivity|]. split; [reflexivity|]. split; [apply add_inst_only|discriminate].
         * destruct H as [x [x' [r' [E1 [E2 [E3 E4]]]]]]. inversion E1; subst. exists (FEnum e), x', r'.
-          split; [reflexivity|]. split; [exact E2|]. split; [|discriminate]. eapply hdr_trans; [|exact E3]. cbn. auto.
+          split; [reflexivity|]. split; [exact E2|]. split; [|discriminate]. eapply attrs_only_trans; [|exact E3]. apply add_inst_only.
         * destruct H as [f [b [b' [r' [E1 _]]]]]. discriminate E1.
   Qed.
 
@@ -571,8 +608,8 @@ Section Exact.
   Lemma assign_pair st lvs ut s1 w1 s2 :
     enter_assign al d st lvs ut = Ok (s1, w1) -> leave_assign s1 = Ok s2 ->
     vs_stack s2 = vs_stack st \/
-    (exists a a' r, vs_stack st = a :: r /\ vs_stack s2 = a' :: r /\ hdr_eq a a' /\ (forall f, a <> FFunc f)) \/
-    (exists f b b' r, vs_stack st = FFunc f :: b :: r /\ vs_stack s2 = FFunc f :: b' :: r /\ hdr_eq b b').
+    (exists a a' r, vs_stack st = a :: r /\ vs_stack s2 = a' :: r /\ attrs_only a a' /\ (forall f, a <> FFunc f)) \/
+    (exists f b b' r, vs_stack st = FFunc f :: b :: r /\ vs_stack s2 = FFunc f :: b' :: r /\ attrs_only b b').
   Proof.
     intros HE HL. unfold enter_assign in HE. inv_ok.
     match goal with x : (list aitem * bool)%type |- _ => destruct x as [its amb] end. cbn [fst snd] in *.
@@ -609,7 +646,7 @@ Section Exact.
   (* a function node adds one function (named as in the source, id = <owner id>/<name>) to the frame it is entered on *)
   Lemma walk_func_exact st f st' w top rest :
     walk_func al d pref_doc warn st f = Ok (st', w) -> vs_stack st = top :: rest ->
-    exists fn top1, f_name fn = fn_name f /\ f_id fn = id_from_stack st (fn_name f) /\ hdr_eq top top1 /\
+    exists fn top1, f_name fn = fn_name f /\ f_id fn = id_from_stack st (fn_name f) /\ attrs_only top top1 /\
                     (forall m, top = FModule m -> top1 = top) /\
                     vs_stack st' = add_fn top1 fn :: rest.
   Proof.
@@ -617,15 +654,15 @@ Section Exact.
     match goal with E : enter_func _ _ _ _ _ _ = Ok (?a, _), E1 : leave_func ?b = Ok _, E0 : _ = Ok (?b, _) |- _ =>
       rename a into s1; rename b into s2; rename E into EE; rename E1 into EL; rename E0 into EF end.
     apply enter_func_frame in EE. destruct EE as [fn [S1 [N1 I1]]]. rewrite S in S1.
-    assert (INV : exists top1, vs_stack s2 = FFunc fn :: top1 :: rest /\ hdr_eq top top1 /\ (forall m, top = FModule m -> top1 = top)).
-    { destruct (str_eqb (fn_name f) (K"__init__")); [|inv_ok; exists top; split; [exact S1|split; [apply hdr_refl|auto]]].
-      assert (G : forall body sa wa, (exists ta, vs_stack sa = FFunc fn :: ta :: rest /\ hdr_eq top ta /\ (forall m, top = FModule m -> ta = top)) ->
+    assert (INV : exists top1, vs_stack s2 = FFunc fn :: top1 :: rest /\ attrs_only top top1 /\ (forall m, top = FModule m -> top1 = top)).
+    { destruct (str_eqb (fn_name f) (K"__init__")); [|inv_ok; exists top; split; [exact S1|split; [apply attrs_only_refl|auto]]].
+      assert (G : forall body sa wa, (exists ta, vs_stack sa = FFunc fn :: ta :: rest /\ attrs_only top ta /\ (forall m, top = FModule m -> ta = top)) ->
                 fold_left (fun acc s => do cur <- acc;
                     match s with
                     | BAssign lvs ut => do s1 <- enter_assign al d (fst cur) lvs ut; do s2 <- leave_assign (fst s1); Ok (s2, wapp (snd cur) (snd s1))
                     | _ => Ok cur
                     end) body (Ok (sa, wa)) = Ok (s2, w) ->
-                exists top1, vs_stack s2 = FFunc fn :: top1 :: rest /\ hdr_eq top top1 /\ (forall m, top = FModule m -> top1 = top)).
+                exists top1, vs_stack s2 = FFunc fn :: top1 :: rest /\ attrs_only top top1 /\ (forall m, top = FModule m -> top1 = top)).
       { induction body as [|b r IH]; intros sa wa [ta [Sa [Ha Ma]]] HF; cbn [fold_left] in HF; [inv_ok; exists ta; auto|].
         cbn [bind fst snd] in HF. destruct b; try (eapply IH; [|exact HF]; exists ta; auto).
         destruct (enter_assign al d sa lvs ut) as [[sb wb]|] eqn:EA; cbn [bind fst snd] in HF.
@@ -633,20 +670,11 @@ Section Exact.
           + eapply IH; [|exact HF]. destruct (assign_pair _ _ _ _ _ _ EA EB) as [P|[P|P]].
             * exists ta. rewrite P. auto.
             * destruct P as [a [a' [r' [P1 [P2 [P3 P4]]]]]]. rewrite Sa in P1. inversion P1; subst. exfalso. eapply P4. reflexivity.
-            * destruct P as [f0 [b0 [b' [r' [P1 [P2 P3]]]]]]. rewrite Sa in P1. inversion P1; subst. exists b'. split; [exact P2|]. split; [eapply hdr_trans; eauto|].
-              intros m Hm. subst top. destruct b0; cbn in Ha; try contradiction. destruct b'; cbn in P3; try contradiction.
-              specialize (Ma m eq_refl). inversion Ma; subst.
-              (* a module frame below a function is never changed by an assignment: assign_step only touches classes and enums *)
-              clear -EA EB Sa P2.
-              unfold enter_assign in EA. inv_ok.
-              match goal with x : (list aitem * bool)%type |- _ => destruct x as [its0 amb0] end. cbn [fst snd] in *.
-              unfold leave_assign in EB. cbn [vs_stack push set_stack] in EB. rewrite Sa in EB.
-              destruct (fold_left _ its0 _) as [[[stk at_] ins]|] eqn:EFo; cbn [bind] in EB; [|discriminate]. inv_ok.
-              cbn [vs_stack] in P2. subst stk.
-              apply assign_fold_module in EFo. cbn [fst] in EFo. inversion EFo. reflexivity.
+            * destruct P as [f0 [b0 [b' [r' [P1 [P2 P3]]]]]]. rewrite Sa in P1. inversion P1; subst. exists b'. split; [exact P2|]. split; [eapply attrs_only_trans; eauto|].
+              intros m Hm. subst top. cbn in Ha. subst b0. cbn in P3. subst b'. reflexivity.
           + exfalso. clear -HF. induction r as [|x r IHr]; cbn in HF; [discriminate|auto].
         - exfalso. clear -HF. induction r as [|x r IHr]; cbn in HF; [discriminate|auto]. }
-      eapply G; [|exact EF]. exists top. split; [exact S1|split; [apply hdr_refl|auto]]. }
+      eapply G; [|exact EF]. exists top. split; [exact S1|split; [apply attrs_only_refl|auto]]. }
     destruct INV as [top1 [S2 [H1 M1]]].
     exists fn, top1. split; [exact N1|]. split; [exact I1|]. split; [exact H1|]. split; [exact M1|].
     unfold leave_func in EL. rewrite S2 in EL. inv_ok. cbn [vs_stack]. unfold add_fn. destruct top1; reflexivity.
@@ -685,52 +713,69 @@ Section Exact.
   Inductive effect := EffNone | EffFunc (fn : func) | EffClass (c : cls) | EffEnum (e : enum_) | EffInner.
   Definition apply_effect (top1 : frame) (e : effect) (top' : frame) : Prop :=
     match e with
-    | EffNone => top' = top1
+    | EffNone | EffInner => top' = top1
     | EffFunc fn => top' = add_fn top1 fn
     | EffClass c => top' = add_cls top1 c
     | EffEnum en => top' = add_enum top1 en
-    | EffInner => hdr_eq top1 top'
     end.
 
+  (* the function a member stands for: a definition, a decorated definition, the implementation of an overloaded
+     definition, or the getter of a property that has a setter or deleter *)
+  Definition member_func (m : cmember) : option fdef :=
+    match m with
+    | CMFunc f | CMDeco f => Some f
+    | CMOver _ p impl item0 =>
+      match impl with
+      | OIFunc f => Some f
+      | OIOther => None
+      | OINone => match p, item0 with true, OTDeco f => Some f | _, _ => None end
+      end
+    | _ => None
+    end.
+
+  (* what one member does to the frame it is entered on: assignments change attribute lists only (top1), then at most one
+     function, class or enum is added; everything below stays as it is *)
   Lemma walk_member_exact : forall m st st' w top rest,
     walk_member al d pref_doc warn st m = Ok (st', w) -> vs_stack st = top :: rest -> (forall f, top <> FFunc f) ->
-    exists top' eff, vs_stack st' = top' :: rest /\ hdr_eq top top' /\
-      (forall md, top = FModule md ->
-         apply_effect top eff top' /\
-         match m, eff with
-         | (CMFunc f | CMDeco f), EffFunc fn => f_name fn = fn_name f /\ f_id fn = id_from_stack st (fn_name f)
-         | CMClass c, EffClass cl => is_enum_def c = false /\ c_name cl = cd_name c /\ c_id cl = id_from_stack st (cd_name c)
-         | CMClass c, EffEnum e => is_enum_def c = true /\ e_name e = cd_name c /\ e_id e = id_from_stack st (cd_name c)
-         | (CMOther _ _ | CMOver _ _ _ _ | CMAssign _ _), _ => True
-         | _, _ => False
-         end).
+    exists top' top1 eff, vs_stack st' = top' :: rest /\ hdr_eq top top' /\ attrs_only top top1 /\ apply_effect top1 eff top' /\
+      match member_func m, m, eff with
+      | Some f, _, EffFunc fn => f_name fn = fn_name f /\ f_id fn = id_from_stack st (fn_name f)
+      | Some _, _, _ => False
+      | None, CMClass c, EffClass cl => is_enum_def c = false /\ c_name cl = cd_name c /\ c_id cl = id_from_stack st (cd_name c) /\ top1 = top
+      | None, CMClass c, EffEnum e => is_enum_def c = true /\ e_name e = cd_name c /\ e_id e = id_from_stack st (cd_name c) /\ top1 = top
+      | None, CMClass _, _ => False
+      | None, CMAssign _ _, EffInner => True
+      | None, CMAssign _ _, _ => False
+      | None, _, EffNone => top1 = top
+      | None, _, _ => False
+      end.
   Proof.
     induction m as [l u|f|f|n p i t|c n|n fu b r defs IH] using cmember_ind'; intros st st' w top rest H S NF; cbn [walk_member] in H.
     - (* assignment *)
       inv_ok. split_pairs.
       match goal with EA : enter_assign _ _ _ _ _ = Ok (?a, _), EB : leave_assign ?a = Ok _ |- _ => destruct (assign_pair _ _ _ _ _ _ EA EB) as [P|[P|P]] end.
-      + exists top, EffNone. rewrite P, S. split; [reflexivity|]. split; [apply hdr_refl|]. intros md Hm. split; [reflexivity|exact I].
-      + destruct P as [a [a' [r' [P1 [P2 [P3 _]]]]]]. rewrite S in P1. inversion P1; subst. exists a', EffInner.
-        split; [exact P2|]. split; [exact P3|]. intros md Hm. split; [exact P3|exact I].
+      + exists top, top, EffInner. rewrite P, S. split; [reflexivity|]. split; [apply hdr_refl|]. split; [apply attrs_only_refl|]. split; [reflexivity|exact I].
+      + destruct P as [a [a' [r' [P1 [P2 [P3 _]]]]]]. rewrite S in P1. inversion P1; subst. exists a', a', EffInner.
+        split; [exact P2|]. split; [apply attrs_only_hdr; exact P3|]. split; [exact P3|]. split; [reflexivity|exact I].
       + destruct P as [f0 [b0 [b' [r' [P1 _]]]]]. rewrite S in P1. inversion P1; subst. exfalso. eapply NF. reflexivity.
     - destruct (walk_func_exact _ _ _ _ _ _ H S) as [fn [top1 [N1 [I1 [H1 [M1 S1]]]]]].
-      exists (add_fn top1 fn), (EffFunc fn). split; [exact S1|]. split; [eapply hdr_trans; [exact H1|apply add_fn_hdr]|].
-      intros md Hm. rewrite (M1 md Hm). split; [reflexivity|]. split; assumption.
+      exists (add_fn top1 fn), top1, (EffFunc fn). split; [exact S1|]. split; [eapply hdr_trans; [apply attrs_only_hdr; exact H1|apply add_fn_hdr]|].
+      split; [exact H1|]. split; [reflexivity|]. cbn. split; assumption.
     - destruct (walk_func_exact _ _ _ _ _ _ H S) as [fn [top1 [N1 [I1 [H1 [M1 S1]]]]]].
-      exists (add_fn top1 fn), (EffFunc fn). split; [exact S1|]. split; [eapply hdr_trans; [exact H1|apply add_fn_hdr]|].
-      intros md Hm. rewrite (M1 md Hm). split; [reflexivity|]. split; assumption.
-    - assert (NONE : Ok (st, w0) = Ok (st', w) -> exists top' eff, vs_stack st' = top' :: rest /\ hdr_eq top top' /\
-                (forall md, top = FModule md -> apply_effect top eff top' /\ True)).
-      { intro E. inv_ok. exists top, EffNone. split; [exact S|]. split; [apply hdr_refl|]. intros; split; [reflexivity|exact I]. }
-      assert (FUN : forall f, walk_func al d pref_doc warn st f = Ok (st', w) -> exists top' eff, vs_stack st' = top' :: rest /\ hdr_eq top top' /\
-                (forall md, top = FModule md -> apply_effect top eff top' /\ True)).
+      exists (add_fn top1 fn), top1, (EffFunc fn). split; [exact S1|]. split; [eapply hdr_trans; [apply attrs_only_hdr; exact H1|apply add_fn_hdr]|].
+      split; [exact H1|]. split; [reflexivity|]. cbn. split; assumption.
+    - assert (FUN : forall f, walk_func al d pref_doc warn st f = Ok (st', w) ->
+                exists top' top1 eff, vs_stack st' = top' :: rest /\ hdr_eq top top' /\ attrs_only top top1 /\ apply_effect top1 eff top' /\
+                  match eff with EffFunc fn => f_name fn = fn_name f /\ f_id fn = id_from_stack st (fn_name f) | _ => False end).
       { intros f HF. destruct (walk_func_exact _ _ _ _ _ _ HF S) as [fn [top1 [N1 [I1 [H1 [M1 S1]]]]]].
-        exists (add_fn top1 fn), (EffFunc fn). split; [exact S1|]. split; [eapply hdr_trans; [exact H1|apply add_fn_hdr]|].
-        intros md Hm. rewrite (M1 md Hm). split; [reflexivity|exact I]. }
-      destruct i; [destruct p; [destruct t|]| |]; first [apply NONE; exact H | eapply FUN; exact H].
-    - inv_ok. exists top, EffNone. split; [exact S|]. split; [apply hdr_refl|]. intros; split; [reflexivity|exact I].
+        exists (add_fn top1 fn), top1, (EffFunc fn). split; [exact S1|]. split; [eapply hdr_trans; [apply attrs_only_hdr; exact H1|apply add_fn_hdr]|].
+        split; [exact H1|]. split; [reflexivity|]. split; assumption. }
+      destruct i as [|f|]; [destruct p; [destruct t as [|f|]|]| |]; cbn [member_func];
+        try (inv_ok; exists top, top, EffNone; split; [exact S|]; split; [apply hdr_refl|]; split; [apply attrs_only_refl|]; split; reflexivity);
+        (destruct (FUN _ H) as [t' [t1 [ef [A1 [A2 [A3 [A4 A5]]]]]]]; exists t', t1, ef; repeat (split; [assumption|]); destruct ef; try contradiction; exact A5).
+    - inv_ok. exists top, top, EffNone. split; [exact S|]. split; [apply hdr_refl|]. split; [apply attrs_only_refl|]. split; reflexivity.
     - (* class or enum *)
-      inv_ok. split_pairs. cbn [cd_defs cd_name] in *.
+      inv_ok. split_pairs. cbn [cd_defs cd_name member_func] in *.
       match goal with E0 : _ (?a, ?wa) defs = Ok (?b, _) |- _ => rename a into s1; rename b into s2; rename wa into w1; rename E0 into EG end.
       (* the body keeps [top; rest] exactly and the header of the entered frame *)
       assert (BODY : forall fr, vs_stack s1 = fr :: top :: rest -> (forall f, fr <> FFunc f) ->
@@ -738,7 +783,7 @@ Section Exact.
       { clear -EG IH. revert s1 w1 EG. induction IH as [|x xs Hx _ IHxs]; intros s1 w1 EG fr S1 NF1; [inv_ok; exists fr; split; [exact S1|apply hdr_refl]|].
         destruct (class_child x && negb (is_placeholder x)); [|eapply IHxs; eauto].
         cbn [fst snd] in EG. destruct (walk_member al d pref_doc warn s1 x) as [[sx wx]|] eqn:EX; cbn [bind fst snd] in EG; [|discriminate].
-        destruct (Hx _ _ _ _ _ EX S1 NF1) as [fr1 [eff [S2 [H2 _]]]].
+        destruct (Hx _ _ _ _ _ EX S1 NF1) as [fr1 [fr0 [eff [S2 [H2 _]]]]].
         destruct (IHxs _ _ EG fr1 S2 (hdr_not_func _ _ H2 NF1)) as [fr' [S3 H3]].
         exists fr'. split; [exact S3|eapply hdr_trans; eauto]. }
       destruct (is_enum_def (mkcdef n fu b r defs)) eqn:EN.
@@ -746,14 +791,14 @@ Section Exact.
         rewrite S in S1. destruct (BODY (FEnum e0) S1 ltac:(discriminate)) as [fr' [S2 H2]].
         destruct fr' as [ | |  |e1| ]; cbn in H2; try contradiction.
         match goal with E : leave_enum _ = Ok _ |- _ => pose proof (leave_enum_exact _ _ _ _ _ E S2) as S3 end.
-        exists (add_enum top e1), (EffEnum e1). split; [exact S3|]. split; [apply add_enum_hdr|].
-        intros md Hm. split; [reflexivity|]. destruct H2 as [Hi Hn]. cbn [cd_name] in *. repeat split; congruence.
+        exists (add_enum top e1), top, (EffEnum e1). split; [exact S3|]. split; [apply add_enum_hdr|]. split; [apply attrs_only_refl|].
+        split; [reflexivity|]. destruct H2 as [Hi Hn]. cbn [cd_name] in *. repeat split; congruence.
       + match goal with E : enter_class _ _ _ _ = Ok _ |- _ => apply enter_class_frame in E; destruct E as [c0 [S1 [N1 I1]]] end.
         rewrite S in S1. destruct (BODY (FClass c0) S1 ltac:(discriminate)) as [fr' [S2 H2]].
         destruct fr' as [ |c1| | | ]; cbn in H2; try contradiction.
         match goal with E : leave_class _ = Ok _ |- _ => pose proof (leave_class_exact _ _ _ _ _ E S2) as S3 end.
-        exists (add_cls top c1), (EffClass c1). split; [exact S3|]. split; [apply add_cls_hdr|].
-        intros md Hm. split; [reflexivity|]. destruct H2 as [Hi [Hn _]]. cbn [cd_name] in *. repeat split; congruence.
+        exists (add_cls top c1), top, (EffClass c1). split; [exact S3|]. split; [apply add_cls_hdr|]. split; [apply attrs_only_refl|].
+        split; [reflexivity|]. destruct H2 as [Hi [Hn _]]. cbn [cd_name] in *. repeat split; congruence.
   Qed.
 End Exact.
 
@@ -807,11 +852,11 @@ Section Inventory.
     - inv_ok. exists md1. split; [exact S1|apply grows_nil].
     - cbn [bind fst snd] in HF. destruct (module_child x && negb (is_placeholder x)) eqn:EW; [|eapply IH; eauto].
       destruct (walk_member al d pref_doc warn s1 x) as [[sx wx]|] eqn:EX; cbn [bind fst snd] in HF; [|rewrite fold_err_module in HF; discriminate].
-      destruct (walk_member_exact al d pref_doc warn x _ _ _ _ _ EX S1 ltac:(discriminate)) as [top' [eff [S2 [H2 EF]]]].
-      destruct (EF md1 eq_refl) as [AE SH]. clear EF.
+      destruct (walk_member_exact al d pref_doc warn x _ _ _ _ _ EX S1 ltac:(discriminate)) as [top' [top1 [eff [S2 [H2 [AO [AE SH]]]]]]].
+      cbn in AO. subst top1.
       assert (exists mdx, top' = FModule mdx /\ grows md1 mdx [x]) as [mdx [ET GX]].
       { apply andb_true_iff in EW as [MC _].
-        destruct x as [l u|f|f|n p i t|c|c n]; cbn in MC; try discriminate.
+        destruct x as [l u|f|f|n p i t|c|c n]; cbn in MC; try discriminate; cbn [member_func] in SH.
         - destruct eff; try contradiction. destruct SH as [N1 I1]. cbn in AE. eexists. split; [exact AE|].
           rewrite (id_at_module _ _ _ S1) in I1. unfold grows, member_funcs, member_classes, member_enums. cbn. rewrite !map_app. cbn.
           rewrite N1, I1, !app_nil_r. repeat split.
@@ -819,10 +864,10 @@ Section Inventory.
           rewrite (id_at_module _ _ _ S1) in I1. unfold grows, member_funcs, member_classes, member_enums. cbn. rewrite !map_app. cbn.
           rewrite N1, I1, !app_nil_r. repeat split.
         - destruct eff; try contradiction.
-          + destruct SH as [EN [N1 I1]]. cbn in AE. eexists. split; [exact AE|].
+          + destruct SH as [EN [N1 [I1 _]]]. cbn in AE. eexists. split; [exact AE|].
             rewrite (id_at_module _ _ _ S1) in I1. unfold grows, member_funcs, member_classes, member_enums. cbn. rewrite EN, !map_app. cbn.
             rewrite N1, I1, !app_nil_r. repeat split.
-          + destruct SH as [EN [N1 I1]]. cbn in AE. eexists. split; [exact AE|].
+          + destruct SH as [EN [N1 [I1 _]]]. cbn in AE. eexists. split; [exact AE|].
             rewrite (id_at_module _ _ _ S1) in I1. unfold grows, member_funcs, member_classes, member_enums. cbn. rewrite EN, !map_app. cbn.
             rewrite N1, I1, !app_nil_r. repeat split. }
       subst top'. destruct (IH _ _ _ _ mdx HF S2) as [md2 [S3 G3]].
@@ -865,7 +910,7 @@ End Inventory.
 Theorem walk_member_single_owner : forall al d pref_doc warn m st st' w top rest,
   walk_member al d pref_doc warn st m = Ok (st', w) -> vs_stack st = top :: rest -> (forall f, top <> FFunc f) ->
   exists top', vs_stack st' = top' :: rest /\ hdr_eq top top'.
-Proof. intros. destruct (walk_member_exact al d pref_doc warn m st st' w top rest) as [t [e [A [B _]]]]; eauto. Qed.
+Proof. intros. destruct (walk_member_exact al d pref_doc warn m st st' w top rest) as [t [t1 [e [A [B _]]]]]; eauto. Qed.
 
 (* ======================================================================================================== *)
 (* C18, analyzer side: what is recorded for a module does not depend on the modules, classes and functions      *)
@@ -1138,3 +1183,111 @@ Section Local.
       + f_equal. rewrite (module_fold_keeps al d pref_doc warn _ _ _ _ _ F2). apply enter_module_modules.
   Qed.
 End Local.
+
+(* ======================================================================================================== *)
+(* C03 / C12: the inventory of a class - its methods (the functions its members stand for, the constructor apart) *)
+(* and its nested classes are registered exactly once, in source order, under their names and <class id>/<name>  *)
+(* ======================================================================================================== *)
+Definition class_walked (c : cdef) : list cmember := filter (fun x => class_child x && negb (is_placeholder x)) (cd_defs c).
+Definition is_init (f : fdef) : bool := str_eqb (fn_name f) (K"__init__").
+Definition class_method_defs (l : list cmember) : list fdef :=
+  flat_map (fun x => match member_func x with Some f => if is_init f then [] else [f] | None => [] end) l.
+
+Section ClassInventory.
+  Variables (al : aliases) (d : docs) (pref_doc warn : bool).
+
+  Lemma flat_map_app' {A B} (f : A -> list B) l1 l2 : flat_map f (l1 ++ l2) = flat_map f l1 ++ flat_map f l2.
+  Proof. induction l1; cbn; [reflexivity|]. rewrite IHl1, app_assoc. reflexivity. Qed.
+
+  Lemma id_under st s' c name below :
+    vs_stack st = below -> vs_stack s' = FClass c :: below -> c_id c = id_from_stack st (c_name c) ->
+    id_from_stack s' name = c_id c ++ K"/" ++ name.
+  Proof.
+    intros S S' HI. unfold id_from_stack in *. rewrite S' , S in *. cbn [rev]. rewrite flat_map_app'. cbn [flat_map frame_seg app].
+    rewrite HI. apply join_app_single. destruct (flat_map frame_seg (rev below)); discriminate.
+  Qed.
+
+  Lemma enter_class_fresh st c st' w : enter_class al d st c = Ok (st', w) ->
+    exists cl, vs_stack st' = FClass cl :: vs_stack st /\ c_name cl = cd_name c /\ c_id cl = id_from_stack st (cd_name c) /\
+               c_methods cl = [] /\ c_classes cl = [].
+  Proof.
+    unfold enter_class. intro H. inv_ok. destruct (superclasses _ _) as [[sups exc] amb]. inv_ok.
+    eexists. split; [reflexivity|]. repeat split.
+  Qed.
+
+  Definition cgrows (cid : str) (c1 c2 : cls) (ms : list cmember) : Prop :=
+    c_id c2 = c_id c1 /\ c_name c2 = c_name c1 /\
+    map f_name (c_methods c2) = map f_name (c_methods c1) ++ map fn_name (class_method_defs ms) /\
+    map f_id (c_methods c2) = map f_id (c_methods c1) ++ map (fun f => cid ++ K"/" ++ fn_name f) (class_method_defs ms) /\
+    map c_name (c_classes c2) = map c_name (c_classes c1) ++ map cd_name (member_classes ms) /\
+    map c_id (c_classes c2) = map c_id (c_classes c1) ++ map (fun c => cid ++ K"/" ++ cd_name c) (member_classes ms).
+
+  Lemma cgrows_nil cid c : cgrows cid c c [].
+  Proof. unfold cgrows. cbn. rewrite !app_nil_r. repeat split. Qed.
+  Lemma cgrows_step cid c1 c2 c3 x xs : cgrows cid c1 c2 [x] -> cgrows cid c2 c3 xs -> cgrows cid c1 c3 (x :: xs).
+  Proof.
+    unfold cgrows, class_method_defs, member_classes. cbn [flat_map]. rewrite !app_nil_r.
+    intros [I1 [N1 [A1 [B1 [C1 D1]]]]] [I2 [N2 [A2 [B2 [C2 D2]]]]]. rewrite !map_app.
+    repeat split; try congruence; [rewrite A2, A1|rewrite B2, B1|rewrite C2, C1|rewrite D2, D1]; rewrite <- app_assoc; reflexivity.
+  Qed.
+
+  Lemma class_body : forall defs s1 w1 s2 w2 c1 below st0,
+    (fix go (cur : vstate * W) (ms : list cmember) : res (vstate * W) :=
+       match ms with
+       | [] => Ok cur
+       | x :: r => if class_child x && negb (is_placeholder x)
+                   then do s' <- walk_member al d pref_doc warn (fst cur) x; go (fst s', wapp (snd cur) (snd s')) r else go cur r
+       end) (s1, w1) defs = Ok (s2, w2) ->
+    vs_stack st0 = below -> vs_stack s1 = FClass c1 :: below -> c_id c1 = id_from_stack st0 (c_name c1) ->
+    exists c2, vs_stack s2 = FClass c2 :: below /\ cgrows (c_id c1) c1 c2 (filter (fun x => class_child x && negb (is_placeholder x)) defs).
+  Proof.
+    induction defs as [|x r IH]; intros s1 w1 s2 w2 c1 below st0 HF S0 S1 HI; cbn [filter].
+    - inv_ok. exists c1. split; [exact S1|apply cgrows_nil].
+    - destruct (class_child x && negb (is_placeholder x)) eqn:EW; [|eapply IH; eauto].
+      cbn [fst snd] in HF. destruct (walk_member al d pref_doc warn s1 x) as [[sx wx]|] eqn:EX; cbn [bind fst snd] in HF; [|discriminate].
+      destruct (walk_member_exact al d pref_doc warn x _ _ _ _ _ EX S1 ltac:(discriminate)) as [top' [top1 [eff [S2 [H2 [AO [AE SH]]]]]]].
+      cbn in AO. destruct AO as [ats AO]. subst top1.
+      assert (exists cx, top' = FClass cx /\ cgrows (c_id c1) c1 cx [x]) as [cx [ET GX]].
+      { unfold cgrows, class_method_defs, member_classes. cbn [flat_map]. rewrite !app_nil_r.
+        destruct (member_func x) as [f|] eqn:MF.
+        - assert (NC : (match x with CMClass c => if is_enum_def c then [] else [c] | _ => [] end) = [])
+            by (destruct x; cbn in MF; try discriminate; reflexivity).
+          rewrite NC. clear NC.
+          destruct eff; try contradiction. destruct SH as [N1 I1]. unfold apply_effect, add_fn in AE.
+          rewrite (id_under st0 s1 c1 (fn_name f) below S0 S1 HI) in I1.
+          unfold is_init. rewrite <- N1. destruct (str_eqb (f_name fn) (K"__init__")) eqn:EI.
+          + eexists. split; [exact AE|]. destruct c1; cbn. rewrite !app_nil_r. repeat split.
+          + eexists. split; [exact AE|]. destruct c1; cbn in *. rewrite !map_app. cbn. rewrite N1, I1, !app_nil_r. repeat split.
+        - destruct x as [l u|f|f|n p i t|c|c n]; cbn [member_func] in MF; try discriminate.
+          + destruct eff; try contradiction. cbn in AE. eexists. split; [exact AE|]. destruct c1; cbn. rewrite !app_nil_r. repeat split.
+          + destruct eff; try contradiction. cbn in AE, SH. rewrite SH in AE. eexists. split; [exact AE|]. rewrite !app_nil_r. repeat split.
+          + destruct eff; try contradiction.
+            * destruct SH as [EN [N1 [I1 T1]]]. rewrite T1 in AE. cbn in AE.
+              rewrite (id_under st0 s1 _ (cd_name c) below S0 S1 HI) in I1.
+              eexists. split; [exact AE|]. destruct c1; cbn in *. rewrite EN, !map_app. cbn. rewrite N1, I1, !app_nil_r. repeat split.
+            * destruct SH as [EN [N1 [I1 T1]]]. rewrite T1 in AE. cbn in AE.
+              eexists. split; [exact AE|]. rewrite EN. cbn. rewrite !app_nil_r. repeat split. }
+      subst top'. destruct GX as [GI GR]. pose proof GR as [GN _].
+      assert (HI' : c_id cx = id_from_stack st0 (c_name cx)) by congruence.
+      destruct (IH _ _ _ _ cx below st0 HF S0 S2 HI') as [c2 [S3 G3]].
+      exists c2. split; [exact S3|]. rewrite GI in G3. eapply cgrows_step; [split; eauto|exact G3].
+  Qed.
+
+  Theorem class_inventory st c st' w top rest :
+    walk_member al d pref_doc warn st (CMClass c) = Ok (st', w) -> is_enum_def c = false -> vs_stack st = top :: rest ->
+    exists cl, vs_stack st' = add_cls top cl :: rest /\ c_name cl = cd_name c /\ c_id cl = id_from_stack st (cd_name c) /\
+      map f_name (c_methods cl) = map fn_name (class_method_defs (class_walked c)) /\
+      map f_id (c_methods cl) = map (fun f => c_id cl ++ K"/" ++ fn_name f) (class_method_defs (class_walked c)) /\
+      map c_name (c_classes cl) = map cd_name (member_classes (class_walked c)) /\
+      map c_id (c_classes cl) = map (fun x => c_id cl ++ K"/" ++ cd_name x) (member_classes (class_walked c)).
+  Proof.
+    intros H EN S. cbn [walk_member] in H. rewrite EN in H. inv_ok. split_pairs.
+    match goal with E : enter_class _ _ _ _ = Ok _ |- _ => apply enter_class_fresh in E; destruct E as [c0 [S1 [N1 [I1 [M0 C0]]]]] end.
+    match goal with EG : _ (_, _) (cd_defs c) = Ok (?b, _) |- _ =>
+      destruct (class_body _ _ _ _ _ c0 (top :: rest) st EG S ltac:(rewrite S1, S; reflexivity) ltac:(rewrite N1; exact I1)) as [c2 [S2 G]] end.
+    match goal with E : leave_class _ = Ok _ |- _ => pose proof (leave_class_exact _ _ _ _ _ E S2) as S3 end.
+    destruct G as [GI [GN [GA [GB [GC GD]]]]]. rewrite M0, C0 in *. cbn [map app] in *.
+    exists c2. split; [exact S3|]. fold (class_walked c) in *.
+    split; [congruence|]. split; [congruence|]. rewrite GI. repeat split; assumption.
+  Qed.
+End ClassInventory.
